@@ -857,14 +857,13 @@ theorem invS'_d5 {s s' : St} {t : Tid} (h : InvS' s) (hp : (s.loc t).pc = .d5)
         rw [setCell_cells_self]
   · cases hs
 
-theorem invS'_peer {s : St} {q : Seq} (exc : Bool) (v : Nat) (h : InvS' s) (hq : q ∈ s.outstanding) :
+/-- the peer writes a reply frame for `q` (first answer or a repetition of it): what both cases need -/
+theorem invS'_peer_aux {s : St} {q : Seq} (exc : Bool) (v : Nat) (h : InvS' s) (hlt : q < s.seqCounter)
+    (hans : ∀ r x, s.answer r = some x → (if r = q then some (exc, v) else s.answer r) = some x)
+    (hout : ∀ r, r ∈ s.outstanding.erase q → r ≠ q)
+    (hnone : ∀ r, s.answer r = none → r ∉ s.outstanding → r ≠ q) :
     InvS' (doPeer s q exc v) := by
-  obtain ⟨a0, hlt⟩ := h.glob.out_unanswered q hq
   have ane : ∀ r, r ≠ q → (if r = q then some (exc, v) else s.answer r) = s.answer r := fun r hr => if_neg hr
-  have hans : ∀ r x, s.answer r = some x → (if r = q then some (exc, v) else s.answer r) = some x := by
-    intro r x hx
-    have : r ≠ q := fun e => by subst e; rw [a0] at hx; cases hx
-    rw [if_neg this]; exact hx
   unfold doPeer
   refine { glob := ?_, thr := ?_, seq_inj := h.seq_inj }
   · exact {
@@ -875,8 +874,8 @@ theorem invS'_peer {s : St} {q : Seq} (exc : Bool) (v : Nat) (h : InvS' s) (hq :
         exact freshSeq_of_eq (h.glob.fresh r hr) rfl (ane r this) List.mem_of_mem_erase rfl rfl
       out_nodup := h.glob.out_nodup.erase q
       out_unanswered := fun r hr => by
-        obtain ⟨r1, r2⟩ := (h.glob.out_nodup.mem_erase_iff).1 hr
-        obtain ⟨r3, r4⟩ := h.glob.out_unanswered r r2
+        have r1 := hout r hr
+        obtain ⟨r3, r4⟩ := h.glob.out_unanswered r (List.mem_of_mem_erase hr)
         exact ⟨(ane r r1).trans r3, r4⟩
       reg_clean := h.glob.reg_clean
       chan_answer := fun f hf => by
@@ -896,11 +895,37 @@ theorem invS'_peer {s : St} {q : Seq} (exc : Bool) (v : Nat) (h : InvS' s) (hq :
     refine (h.thr u).transfer (fun _ x => x) ?_ ?_ (fun _ x => ⟨x, rfl, rfl, rfl, rfl, rfl⟩) hans (fun x => x)
       (fun _ a b => ⟨a, b⟩) (fun _ _ => rfl) (Nat.le_refl _)
     · intro _ _ fr
-      have : (s.loc u).seq ≠ q := fun e => fr.2.2.1 (e ▸ hq)
+      have : (s.loc u).seq ≠ q := hnone _ fr.2.1 fr.2.2.1
       exact freshSeq_of_eq fr rfl (ane _ this) List.mem_of_mem_erase rfl rfl
     · intro _ _ a b
-      have : (s.loc u).seq ≠ q := fun e => b (e ▸ hq)
+      have : (s.loc u).seq ≠ q := hnone _ a b
       exact ⟨(ane _ this).trans a, fun x => b (List.mem_of_mem_erase x)⟩
+
+theorem invS'_peer {s : St} {q : Seq} (exc : Bool) (v : Nat) (h : InvS' s) (hq : q ∈ s.outstanding) :
+    InvS' (doPeer s q exc v) := by
+  obtain ⟨a0, hlt⟩ := h.glob.out_unanswered q hq
+  refine invS'_peer_aux exc v h hlt ?_ (fun r hr => ((h.glob.out_nodup.mem_erase_iff).1 hr).1)
+    (fun r _ b e => b (e ▸ hq))
+  intro r x hx
+  have : r ≠ q := fun e => by subst e; rw [a0] at hx; cases hx
+  rw [if_neg this]; exact hx
+
+/-- the peer repeats the answer it already gave -/
+theorem invS'_peerDup {s : St} {q : Seq} (exc : Bool) (v : Nat) (h : InvS' s) (ha : s.answer q = some (exc, v)) :
+    InvS' (doPeer s q exc v) := by
+  have hlt : q < s.seqCounter := Nat.lt_of_not_le (fun hle => by
+    have := (h.glob.fresh _ hle).2.1
+    rw [ha] at this; cases this)
+  refine invS'_peer_aux exc v h hlt ?_ ?_ ?_
+  · intro r x hx
+    by_cases e : r = q
+    · subst e; rw [if_pos rfl, ← ha]; exact hx
+    · rw [if_neg e]; exact hx
+  · intro r hr e
+    have := (h.glob.out_unanswered r (List.mem_of_mem_erase hr)).1
+    rw [e, ha] at this; cases this
+  · intro r a _ e
+    rw [e, ha] at a; cases a
 
 /-! ### the theorems -/
 
@@ -994,6 +1019,11 @@ theorem invS'_step {s s' : St} (a : Actor) (h : InvS' s) (hs : step s a = some s
     simp only [step] at hs
     split at hs
     · rename_i hc; cases hs; exact invS'_peer exc v h hc.1
+    · cases hs
+  | peerDup q exc v =>
+    simp only [step] at hs
+    split at hs
+    · rename_i hc; cases hs; exact invS'_peerDup exc v h hc.1
     · cases hs
   | peerEof =>
     simp only [step] at hs
